@@ -16,7 +16,7 @@ EXPLANATION = (
     'and the same body; R15.c both APIs return a shell-reported error unmodified; R15.d decoders propagate every failure as an '
     'error value; R15.e the only headers written on the path are the shell\'s (a side-effecting set_body is undone before they '
     'are appended, and headers are snapshotted before the body is taken); R15.f decode_body produces a String only behind the success edge of '
-    'the charset-label lookup; R15.g body_json parses the raw body bytes (JSON is UTF-8 whatever the Content-Type says) and never goes through the charset decoder. R15.k crux_http decodes JSON through the whole-document entry points of serde_json only: a Deserializer built by hand must pass end() before every successful return (controls in the fixtures). R15.j every expectation decodes the body of the response it was given (no with_body / set_body before the read). R15.i where a shell HttpResponse becomes a response object, set_body takes the `body` field of that response itself (moved, Into / From / from_bytes at most), never a reader with a declared length or a re-encoding. Decoder conformance (encoding_rs, serde_json) is trusted. R15.a also lists std methods that panic on argument values (String::truncate, split_at, Vec::remove, ...). R15.e also requires that the shell\'s headers are appended, never inserted over an earlier value of the same name.')
+    'the charset-label lookup; R15.g body_json parses the raw body bytes (JSON is UTF-8 whatever the Content-Type says) and never goes through the charset decoder. R15.k crux_http decodes JSON through the whole-document entry points of serde_json only: a Deserializer built by hand must pass end() before every successful return (controls in the fixtures). R15.j every expectation decodes the body of the response it was given (no with_body / set_body before the read). R15.i where a shell HttpResponse becomes a response object, set_body takes the `body` field of that response itself (moved, Into / From / from_bytes at most), never a reader with a declared length or a re-encoding. Decoder conformance (encoding_rs, serde_json) is trusted. R15.a also lists std methods that panic on argument values (String::truncate, split_at, Vec::remove, ...). R15.e also requires that the shell\'s headers are appended, never inserted over an earlier value of the same name. R15.l a possibly repeated header is read by its last value or as a whole list, never through HeaderValues\' Deref / index to the first.')
 
 HT = 'http_types_red_badger_temporary_fork'
 SAFE_STATUS_T = HT + '::status_code::StatusCode'
